@@ -1628,6 +1628,9 @@ func parseFieldNumValue(s string) (float64, int32, error) {
 		// Unsigned integer value
 		ss := s[:len(s)-1]
 		n := fastfloat.ParseBestEffort(ss)
+		if math.IsNaN(n) || math.IsInf(n, 0) {
+			return 0, Field_Type_Unknown, fmt.Errorf("invalid number")
+		}
 		return n, Field_Type_Float, nil
 	}
 	if s == "t" || s == "T" || s == "true" || s == "True" || s == "TRUE" {
